@@ -5,7 +5,7 @@
    int() and str(float) are universally quantified. *)
 From Coq Require Import List NArith ZArith Bool.
 From Ynca Require Import Base.Text Model.Enum Model.Line Model.ServerNames Model.Server.
-From Ynca Require Import Proofs.ServerFacts Proofs.ServerGen.
+From Ynca Require Import Proofs.ServerFacts Proofs.ServerMore Proofs.ServerGen.
 From Ynca Require Import Gen.ServerTables Gen.ServerRecs.
 Import ListNotations.
 
@@ -69,3 +69,21 @@ Theorem C19_relative_step_without_level :
   handle_put gen_cfg srv_related srv_inp_map srv_zones pf pi ps st s f v = Ok (st, [s_UNDEFINED]).
 Proof. rewrite gen_cfg_eq. intros pf pi ps. exact (put_volume_relative_bad srv_related srv_inp_map srv_zones pf pi ps). Qed.
 Print Assumptions C19_relative_step_without_level.
+
+(* stored values of unrelated functions: whatever the line (and whatever the guards), a command never adds or
+   removes a key ... *)
+Theorem C19_keys_never_change :
+  forall pf pi ps st lines st' outs,
+  srv_run gen_cfg srv_multi srv_related srv_inp_map srv_zones pf pi ps st lines = Ok (st', outs) -> keys st' = keys st.
+Proof. intros pf pi ps st lines st' outs. exact (srv_run_keys srv_multi srv_related srv_inp_map srv_zones pf pi ps gen_cfg lines st st' outs). Qed.
+Print Assumptions C19_keys_never_change.
+
+(* ... and a PUT leaves every stored value alone except the one it names and, when the function is PWR, the
+   PWR / PWRB values it is coupled with *)
+Theorem C19_unrelated_values_unchanged :
+  forall pf pi ps st s f v st' out,
+  handle_put gen_cfg srv_related srv_inp_map srv_zones pf pi ps st s f v = Ok (st', out) ->
+  forall s0 f0, (s0 <> s \/ f0 <> f) -> (teqb f s_PWR = false \/ (f0 <> s_PWR /\ f0 <> s_PWRB)) ->
+  get_data st' s0 f0 = get_data st s0 f0.
+Proof. intros pf pi ps st s f v st' out. exact (handle_put_frame srv_related srv_inp_map srv_zones pf pi ps gen_cfg st s f v st' out). Qed.
+Print Assumptions C19_unrelated_values_unchanged.
